@@ -19,6 +19,7 @@ NAMES = ["start", "a", "b", "c", "d", "e"]
 
 TEXT_RX = ["[ab]", "[ab]+", "a+", "b?a", "(ab|b)", "[a-c]{1,2}", "[0-9]+", "[01]{2}", "a[ab]?"]
 TEXT_RX_EMPTY = ["a*", "[ab]*", "b?", "(ab)?"]
+TEXT_RX_NON_ASCII = ["[aé]+", "é+", "é?a", "[é€]{1,2}", "(é|ab)+", "aé?"]
 BIN_RX = ["[ab]", "[ab]+", "a+", "[0-9]{1,2}"]
 
 DEFAULT_SW = {
@@ -83,7 +84,7 @@ def _terminal(draw: Any, s: dict[str, Any], alphabet: str) -> Any:
         return draw(_literal(s, alphabet))
     if s["mode"] == "bin":
         return ["brx", draw(st.sampled_from(BIN_RX))]
-    pool = TEXT_RX + (TEXT_RX_EMPTY if s["regex"] == "empty" else [])
+    pool = TEXT_RX + (TEXT_RX_EMPTY if s["regex"] == "empty" else []) + (TEXT_RX_NON_ASCII if s.get("non_ascii") else [])
     return ["rx", draw(st.sampled_from(pool))]
 
 
